@@ -25,6 +25,12 @@ CHECKS = {
         note='trusts the signature transcription in hplverif/typesig.py; bound variables are required to be compatible with (not contained in) the element type, as the code comments state',
         ref='DESIGN.md section 4, C03',
     ),
+    'C04': dict(
+        technique='type-directed generation from random message schemas (construction, not rejection) with an acceptance oracle: parser accepts, inferred reference types contain the schema types (own resolver), property-level schema check passes',
+        level='bounded exploration: thousands of schema-consistent properties and predicates per run over all scope/pattern shapes, nested messages, fixed/variable arrays, arrays of messages, constants, aliases (incl. own alias), quantified variables, computed indices and every reachable built-in; any rejection is a violation',
+        note='well-typedness is by construction against hplverif/typesig.py; quantifiers range over primitive-element collections; sibling binders at different types are the listed known finding F12',
+        ref='DESIGN.md section 4, C04',
+    ),
     'C06': dict(
         technique='property-based round trip: parse generated text, str(), parse again with the entry point of that level; equality, hash and second-print oracle; run-wide injectivity map',
         level='bounded exploration: thousands of parser-produced ASTs per run over all node kinds, with time bounds from the whole double range in both units; every AST must print to text that parses to an equal, hash-equal AST that prints identically, and unequal ASTs must never share a printed form',
@@ -84,6 +90,12 @@ CHECKS = {
         level='bounded exploration of call histories: about a thousand sequences of up to 10 calls per quick run (16 x 1200 x 14 in the thorough tier) over parser-produced properties, predicates and expressions; every stored type, metadata dict and hash of every AST obtained earlier is re-read after each call',
         note='whether a call raises is not judged here (C07/C14 do); sequences are recorded as programs and replayed without Hypothesis',
         ref='DESIGN.md section 4, C16',
+    ),
+    'C17': dict(
+        technique='fault injection into schemas: for a generated valid (property, schema) pair exactly one used declaration is removed / confused / re-typed outside the inferred type set / shortened, located with an own resolver over the parsed AST; exhaustive and generated checks of type tokens; differential of schema navigation helpers against the declared tree',
+        level='bounded exploration with single-fault enumeration over generated cases: the valid pair must pass and every single-fault variant must raise (unknown field errors must name the field), at any depth and any position of the predicate, on own and alias paths; integer token bounds and all 128 TypeToken type values are checked exhaustively',
+        note='a re-declaration counts as a fault only when the new type lies outside the type set the library inferred for that reference (as the property states); constants are not mutated',
+        ref='DESIGN.md section 4, C17',
     ),
     'C20': dict(
         technique='small-scope exhaustive enumeration against a 7-bit integer model (generated-input search with a reference model)',
